@@ -406,15 +406,18 @@ impl Prop for C03 {
         // long data piling up beyond the advertised max_allowed_packet (64 MiB) on one parameter: a
         // server may end the connection over it; then nothing malformed and nothing for the chunks
         // may have been sent
-        let over_limit = {
+        // (index of the command whose chunk crosses the limit)
+        let over_limit: Option<usize> = {
             let mut pending: std::collections::HashMap<(u32, u16), usize> = Default::default();
-            let mut over = false;
-            for sc in &c.cmds {
+            let mut over = None;
+            for (i, sc) in c.cmds.iter().enumerate() {
                 match &sc.cmd {
                     Cmd::LongData { id, param, data } => {
                         let e = pending.entry((*id, *param)).or_insert(0);
                         *e += data.len();
-                        over |= *e > (1 << 26);
+                        if *e > (1 << 26) && over.is_none() {
+                            over = Some(i);
+                        }
                     }
                     Cmd::Execute { id, .. } | Cmd::Close { id } => pending.retain(|(s, _), _| s != id),
                     _ => {}
@@ -422,14 +425,16 @@ impl Prop for C03 {
             }
             over
         };
-        if over_limit && o.result.is_err() {
+        if let (Some(ci), true) = (over_limit, o.result.is_err()) {
+            // the connection must have ended *at* that chunk: everything before it answered, and not
+            // a byte more (a long-data command has no reply, refused or not)
             ex.class("over-limit-long-data-ended-the-connection");
-            let d = decode_output(&o.out, &kinds);
-            if d.problem.is_some() && !d.truncated_only {
-                ex.fail("c03-nonconformant", format!("client decoder rejects the server's output: {:?}", d.problem));
-            }
-            if d.stray_msgs != 0 {
-                ex.fail("c03-stray-packets", format!("{} packets that answer no command", d.stray_msgs));
+            let d = decode_output(&o.out, &kinds[..ci]);
+            if d.problem.is_some() || d.stray_msgs != 0 || d.trailing_bytes != 0 || d.replies.len() != kinds[..ci].len() {
+                ex.fail(
+                    "c03-bytes-for-refused-long-data",
+                    format!("run_on returned {} over long data beyond the advertised limit, but the output is not exactly the replies to the {} commands before that chunk: {:?}, {} stray packets, {} stray bytes", o.result.brief(), ci, d.problem, d.stray_msgs, d.trailing_bytes),
+                );
             }
             return ex;
         }
